@@ -36,3 +36,7 @@ package starlarkstruct
 //@   prop C11
 //@   requires depth >= 1
 //@   decreases depth, 1
+
+// ---- determinism and thread-compatibility (C03, C05): no function of the package writes a
+// package-level variable at run time (what one execution left there another would read)
+//@ globals_readonly [C03,C05] none
